@@ -134,11 +134,13 @@ func checkC02With(p *cparsers.ExpressionParser, c c02Case) *evid.Fail {
 func init() { regReplay("C02", checkC02) }
 
 // the 17 token classes of the exhaustive enumeration ('-' is the sign-capable additive operator; 'a (' makes a call)
-var c02Alphabet = []etok{{"c", "1"}, {"i", "a"}, {"o", "("}, {"o", ")"}, {"o", "["}, {"o", "]"}, {"o", ","}, {"o", "-"}, {"o", "*"}, {"o", "^"}, {"o", "="},
+var c02Alphabet = []etok{{"i", "\"NULL\""}, {"c", "1"}, {"i", "a"}, {"o", "("}, {"o", ")"}, {"o", "["}, {"o", "]"}, {"o", ","}, {"o", "-"}, {"o", "*"}, {"o", "^"}, {"o", "="},
 	{"o", "AND"}, {"o", "NOT"}, {"o", "IS"}, {"o", "NULL"}, {"o", "IN"}, {"o", "LIKE"}}
 
 // full vocabulary for the mutation test
 var c02Vocabulary = []etok{{"c", "1"}, {"c", "2.5"}, {"c", "'s'"}, {"c", "TRUE"}, {"c", "FALSE"}, {"i", "a"}, {"i", "b"}, {"i", "f"}, {"i", "\"q i\""},
+	{"i", "\"null\""}, {"i", "\"IS\""}, {"i", "\"not\""}, {"i", "\"and\""}, {"i", "\"In\""}, {"i", "\"like\""}, {"i", "\"true\""}, {"c", "'NULL'"}, {"c", "'and'"},
+	{"o", "😀"}, {"o", "@"}, {"o", "$"}, {"o", "\uffff"}, {"o", "𝑥"}, {"o", "#"},
 	{"o", "("}, {"o", ")"}, {"o", "["}, {"o", "]"}, {"o", ","}, {"o", "+"}, {"o", "-"}, {"o", "*"}, {"o", "/"}, {"o", "%"}, {"o", "^"},
 	{"o", "="}, {"o", "<>"}, {"o", ">"}, {"o", "<"}, {"o", ">="}, {"o", "<="}, {"o", "<<"}, {"o", ">>"},
 	{"o", "AND"}, {"o", "OR"}, {"o", "XOR"}, {"o", "NOT"}, {"o", "IS"}, {"o", "IN"}, {"o", "NULL"}, {"o", "LIKE"}}
@@ -175,7 +177,7 @@ func TestC02_Exhaustive(t *testing.T) {
 	rec.DupFree = true
 	defer finish(t, rec)
 	maxLen := pick(5, 6)
-	rec.Bounds = fmt.Sprintf("every token sequence of length 1..%d over the 17-class alphabet {1 a ( ) [ ] , - * ^ = AND NOT IS NULL IN LIKE}; those of length <= 4 also through ParseTokens", maxLen)
+	rec.Bounds = fmt.Sprintf("every token sequence of length 1..%d over the 18-class alphabet {1 a \"NULL\" ( ) [ ] , - * ^ = AND NOT IS NULL IN LIKE}; those of length <= 4 also through ParseTokens", maxLen)
 	alpha := make([]string, len(c02Alphabet))
 	byName := map[string]etok{}
 	for i, a := range c02Alphabet {
@@ -220,7 +222,7 @@ func TestC02_Exhaustive(t *testing.T) {
 }
 
 func c02GenCfg() *genCfg {
-	return &genCfg{vars: []string{"a", "b", "\"q i\""}, funcs: []string{"f", "g"}, consts: func(t *rapid.T) string {
+	return &genCfg{vars: []string{"a", "b", "\"q i\"", "\"null\"", "\"not\"", "\"IS\""}, funcs: []string{"f", "g", "\"in\""}, consts: func(t *rapid.T) string {
 		return rapid.SampledFrom([]string{"1", "2.5", "'s'", "TRUE", "FALSE", "0", ".5", "1e3"}).Draw(t, "const")
 	}, maxArgs: 3}
 }
